@@ -38,3 +38,38 @@ def aead_tag(key, nonce12, aad, ct, rounds=20):
 def aead_decrypt_plain(key, nonce12, ct, rounds=20):
     st = stream.Stream("chacha", rounds, key, nonce12)
     return stream.xor(ct, st.keystream(1, 0, len(ct)))
+
+
+def poly1305_parts(key32, prefix, zero_blocks, suffix):
+    """Poly1305 of  prefix || 16*zero_blocks zero bytes || suffix  (prefix a multiple of 16 bytes long) without walking the zero run:
+    a run of n identical blocks c maps the accumulator h to  h*r^n + c*(r^n + ... + r)  (geometric sum, closed form modulo 2^130-5)."""
+    assert len(prefix) % 16 == 0
+    p = (1 << 130) - 5
+    r = int.from_bytes(key32[:16], "little") & 0x0ffffffc0ffffffc0ffffffc0fffffff
+    s = int.from_bytes(key32[16:], "little")
+    h = 0
+    for i in range(0, len(prefix), 16):
+        h = (h + int.from_bytes(prefix[i:i + 16] + b"\x01", "little")) * r % p
+    c = 1 << 128
+    n = zero_blocks
+    rn = pow(r, n, p)
+    if r % p == 1:
+        geo = n % p
+    elif r % p == 0:
+        geo = 0
+    else:
+        geo = r * (rn - 1) % p * pow(r - 1, p - 2, p) % p
+    h = (h * rn + c * geo) % p
+    for i in range(0, len(suffix), 16):
+        blk = suffix[i:i + 16]
+        h = (h + int.from_bytes(blk + b"\x01", "little")) * r % p
+    return ((h + s) & ((1 << 128) - 1)).to_bytes(16, "little")
+
+
+def aead_tag_zero_ciphertext(key, nonce12, aad, total_len, rounds=20, claimed_len=None):
+    """the RFC 8439 tag of a ciphertext of total_len zero bytes (claimed_len: the length written into the trailer, for wrong tags)"""
+    st = stream.Stream("chacha", rounds, key, nonce12)
+    otk = st.keystream(0, 0, 32)
+    full, rest = divmod(total_len, 16)
+    tail = (bytes(16) if rest else b"") + len(aad).to_bytes(8, "little") + (total_len if claimed_len is None else claimed_len).to_bytes(8, "little")
+    return poly1305_parts(otk, aad + pad16(aad), full, tail)
